@@ -598,7 +598,7 @@ class IrToWasmCompiler:
         "F32TOF64": ["f64.promote_f32"],
         # 32 -- 64
         "I32TOI64": ["i64.extend_i32_s"],
-        "I32TOU64": ["i64.extend_i32_u"],
+        "I32TOU64": ["i64.extend_i32_s"],
         # i64 -- 32
         "U64TOI32": ["i32.wrap_i64"],
         "I64TOI32": ["i32.wrap_i64"],
